@@ -1322,6 +1322,18 @@ def c_deref(ip, frame, bb, st, callee, args, dty):
     return [(st, ip.fresh_value(st, dty, "deref"))]
 
 
+def c_borrow(ip, frame, bb, st, callee, args, dty):
+    """Borrow::borrow: for a concrete Self borrowed as itself (`impl<T> Borrow<T> for T`) the reference is returned as is;
+    for an abstract Self an arbitrary reference"""
+    sty = callee.get("self_ty")
+    if sty is not None:
+        sty = subst(sty, frame.env)
+        targ = [a for a in callee.get("args", [])[1:] if a.get("g") == "ty"]
+        if sty.get("k") in ("int", "bool", "char") and targ and ty_str(subst(targ[0]["ty"], frame.env)) == ty_str(sty) and isinstance(args[0], VRef):
+            return [(st, args[0])]
+    return c_fresh(ip, frame, bb, st, callee, args, dty)
+
+
 def c_unit(ip, frame, bb, st, callee, args, dty):
     return [(st, UNIT)]
 
@@ -1501,7 +1513,7 @@ def install(ip):
     C[("std::iter::Iterator", "next")] = c_fresh
     C[("std::iter::Iterator", "map")] = c_fresh
     C[("std::iter::IntoIterator", "into_iter")] = c_fresh
-    C[("std::borrow::Borrow", "borrow")] = c_fresh
+    C[("std::borrow::Borrow", "borrow")] = c_borrow
     C[("util::ByteSource", "read_byte")] = c_fresh
     C[("util::ByteSourceErr", "kind")] = c_fresh
     C[("util::ByteSourceErr", "is_eof")] = c_fresh
